@@ -241,6 +241,7 @@ package dawn
 // than the error it was handed is returned only for "/.dawn/build".
 //@ func (*dawn.Project).builtin_glob$1
 //@   retassert prunes-only-build-state: (result != nil && result != err) ==> path == "/.dawn/build"
+//@   callsite IsDir: assert build-state-pruned-before: sub(old(path), len(dir), len(old(path))) != "/.dawn/build"
 //@   modifies heap
 
 // ---------------------------------------------------------------- C15: corrupted records surface as errors
@@ -497,6 +498,14 @@ package dawn
 //@ func dawn.fileSum
 //@   trusted
 
+// The checksum of a directory covers every entry ReadDir reports: each completed iteration of the
+// loop has hashed exactly one line (the entry's name and checksum); no entry is skipped.
+//@ func dawn.dirSum
+//@   uses fmt.Fprintf variant hashing
+//@   requires dir != nil
+//@   modifies heap, n_hashed
+//@   loop 0: step every-entry-contributes: when true ensures n_hashed == old(n_hashed) + 1
+
 // A source is up to date exactly when its recorded checksum equals the checksum of its present
 // contents (a missing file has the empty checksum); any other I/O error is returned.
 //@ func (*dawn.sourceFile).upToDate
@@ -509,6 +518,7 @@ package dawn
 // current one (then only the presence of its generated files is left to check).
 //@ func (*dawn.function).upToDate
 //@   requires f != nil
+//@   callsite functionEnv: assert fingerprints-the-present-function: $0 == f.function
 //@   ensures  env-equal-or-always: (result.3 == nil && result.0) ==> (f.always || steq(f.oldEnv, f.newEnv))
 //@   modifies heap, olen, obytes, ipos, dkeys, dvals, it_seen
 
